@@ -21,7 +21,7 @@ impl<Req, Res, E> Inner<Req, Res, E> {
             old(tr).unguarded == 0,   // #no_unguarded_duty_when_inner_call_may_panic @LEDGER_TAGS@
         ensures
             !final(self).ready@, final(self).polls == old(self).polls,
-            *final(tr) == (Trace { ev: old(tr).ev.push(Ev::InnerCall(req)), calls: old(tr).calls + 1, last_req: Some(req), reqs: old(tr).reqs.push(req), ..*old(tr) }),
+            *final(tr) == (Trace { ev: old(tr).ev.push(Ev::InnerCall(req)), calls: old(tr).calls + 1, last_req: Some(req), reqs: old(tr).reqs.push(req), call_at: old(tr).ev.len(), ..*old(tr) }),
     { unimplemented!() }
     /// a clone has not been driven to readiness (strict services such as Buffer reserve capacity in poll_ready)
     #[verifier::external_body]
